@@ -242,6 +242,7 @@ template<class K, class V> struct Case : public Look {
    {
       if (caseBad) return;
       const HT & h = *tab[t]; Model & m = mod[t]; vh::stat(deep ? "audits_deep" : "audits");
+      struct AuditKey { std::string & o; std::string keep; bool on; AuditKey(std::string & o_, bool on_) : o(o_), keep(o_), on(on_) { if (on) o = "audit (sparse in this mode; the divergence stems from one of the last operations) after: " + keep; } ~AuditKey() { if (on) o = keep; } } auditKey(opname, center != 0 && opname.compare(0, 5, "audit") != 0);
       if (h.GetNumItems() != m.size()) { Fail("", vh::fmt("table %d: size %u, model %zu", t, h.GetNumItems(), m.size())); return; }
       if (h.IsEmpty() != (m.size() == 0) || h.HasItems() == (m.size() == 0)) { Fail("", "IsEmpty/HasItems"); return; }
       if (h.GetNumAllocatedItemSlots() < h.GetNumItems()) { Fail("", "allocated slots < items"); return; }
